@@ -8,40 +8,11 @@
     along [tau]. *)
 From Coq Require Import List Lia Bool String Ascii NArith FMapPositive.
 From Patronus Require Import Expr ExprLemmas ExprEqb Eval SysClosed Btor2Parse Btor2Ser Btor2ExprFacts Btor2ParseProofs
-     Btor2Sound Btor2SerProofs Btor2RtExpr Btor2RtLines Btor2RtSim Btor2RtSys.
+     Btor2Sound Btor2SerProofs Btor2RoundTripSpec Btor2RtExpr Btor2RtLines Btor2RtSim Btor2RtSys.
 Import ListNotations.
 Open Scope string_scope.
 Open Scope list_scope.
 Open Scope N_scope.
-
-(** ** the statement *)
-(** [e'] (reader side, environment [rho']) means what [e] means (writer side, environment [rho]) *)
-Definition eqv (rho rho' : env) (e e' : expr) : Prop :=
-  type_of e' = type_of e /\ ebv rho' e' = ebv rho e /\ earr rho' e' = earr rho e.
-
-Definition opt_rel {A} (R : A -> A -> Prop) (a b : option A) : Prop :=
-  match a, b with Some x, Some y => R x y | None, None => True | _, _ => False end.
-
-Definition state_eqv (rho rho' : env) (s s' : state) : Prop :=
-  opt_rel (eqv rho rho') (st_init s) (st_init s') /\ opt_rel (eqv rho rho') (st_next s) (st_next s').
-
-Record rt_agrees (sy sy' : sys) (tau : expr -> expr) (pull : env -> env) : Prop := mkRt {
-  (* [tau] maps symbols to symbols of the same type ... *)
-  rt_keep : type_keeping tau;
-  (* ... [pull rho'] gives every symbol the value its partner has in [rho'] ... *)
-  rt_pull : forall rho' s, is_symbol s = true ->
-            ebv (pull rho') s = ebv rho' (tau s) /\ earr (pull rho') s = earr rho' (tau s);
-  rt_wf : forall rho', env_wf rho' -> env_wf (pull rho');
-  (* ... the declared symbols correspond position by position ... *)
-  rt_inputs : s_inputs sy' = map tau (s_inputs (demote sy));
-  rt_states : map st_sym (s_states sy') = map tau (map st_sym (s_states (demote sy)));
-  (* ... and so do the meanings of all expressions (same counts: [Forall2]) *)
-  rt_sem : forall rho', env_wf rho' ->
-      Forall2 (state_eqv (pull rho') rho') (s_states (demote sy)) (s_states sy') /\
-      Forall2 (fun o o' => eqv (pull rho') rho' (snd o) (snd o')) (s_outputs sy) (s_outputs sy') /\
-      Forall2 (eqv (pull rho') rho') (s_bads sy) (s_bads sy') /\
-      Forall2 (eqv (pull rho') rho') (s_constraints sy) (s_constraints sy')
-}.
 
 (** ** renaming and demotion on the reader's raw system *)
 Lemma rename_state_nil s : rename_state [] s = s.
